@@ -545,6 +545,67 @@ def hook_mode(f, clsname):
     return "TopDown %s %s" % (clist([cN(p + 1) for p in order]), cbool(ext))
 
 
+# ------------------------------------------------------------------ the converter registries
+def parse_registries(mod):
+    """How register_* / unregister_* (classmethods of SerializerBase) change the class-level registry dicts:
+    in place (`cls.__reg[k] = v`, `del cls.__reg[k]`: one dict shared by all serializer classes) or by rebinding
+    the attribute through cls (`cls.__reg = ...`: a subclass gets its own copy that shadows the shared one)."""
+    base = find_class(mod, "SerializerBase")
+    regs = {"dict_to_class": None, "class_to_dict": None}
+    attr_of = {}
+    for st in base.body:
+        if isinstance(st, ast.Assign) and len(st.targets) == 1 and is_name(st.targets[0]) and st.targets[0].id.endswith("_registry"):
+            need(isinstance(st.value, ast.Dict) and not st.value.keys, "registry %s does not start as an empty dict literal" % st.targets[0].id)
+            for k in regs:
+                if k in st.targets[0].id:
+                    attr_of[k] = st.targets[0].id
+    need(set(attr_of) == set(regs), "the two converter registries are not class attributes of SerializerBase")
+    for cls in [n for n in mod.body if isinstance(n, ast.ClassDef) and n.name != "SerializerBase"]:
+        for n in ast.walk(cls):
+            if isinstance(n, (ast.Name, ast.Attribute)):
+                nm = n.id if isinstance(n, ast.Name) else n.attr
+                need(nm not in attr_of.values(), "class %s touches the converter registry %s" % (cls.name, nm))
+    out = {}
+    for k, attr in attr_of.items():
+        inplace = True
+        for fname in ("register_" + k, "unregister_" + k):
+            f = find_func(mod, fname, "SerializerBase")
+            need(any(isinstance(d, ast.Name) and d.id == "classmethod" for d in f.decorator_list), fname + " is not a classmethod")
+            clsvar = f.args.args[0].arg
+            touched = False
+            for n in ast.walk(f):
+                targets = []
+                if isinstance(n, ast.Assign):
+                    targets = n.targets
+                elif isinstance(n, (ast.AugAssign, ast.AnnAssign)):
+                    targets = [n.target]
+                elif isinstance(n, ast.Delete):
+                    targets = n.targets
+                for t in targets:
+                    if isinstance(t, ast.Subscript) and isinstance(t.value, ast.Attribute) and t.value.attr == attr:
+                        need(is_name(t.value.value, clsvar) or is_name(t.value.value, "SerializerBase"), "registry reached through an unexpected object in " + fname)
+                        touched = True
+                    elif isinstance(t, ast.Attribute) and t.attr == attr:
+                        need(is_name(t.value, clsvar) or is_name(t.value, "SerializerBase"), "registry rebound through an unexpected object in " + fname)
+                        if is_name(t.value, clsvar):
+                            inplace = False      # rebinding through cls: a subclass gets a shadowing copy
+                        touched = True
+                if isinstance(n, ast.Call) and isinstance(n.func, ast.Attribute) and isinstance(n.func.value, ast.Attribute) and n.func.value.attr == attr:
+                    need(n.func.attr in ("get", "keys", "items", "values", "copy"), "registry changed through method %s in %s" % (n.func.attr, fname))
+                if isinstance(n, ast.Call) and is_name(n.func, "setattr"):
+                    raise GenError("setattr in " + fname)
+            need(touched, fname + " does not change the registry " + attr)
+        out[k] = inplace
+    # every other function of SerializerBase only reads the registries
+    for f in [n for n in base.body if isinstance(n, ast.FunctionDef) and not n.name.endswith(("register_dict_to_class", "register_class_to_dict"))]:
+        for n in ast.walk(f):
+            if isinstance(n, (ast.Assign, ast.Delete, ast.AugAssign)):
+                for t in (n.targets if not isinstance(n, ast.AugAssign) else [n.target]):
+                    for m in ast.walk(t):
+                        need(not (isinstance(m, ast.Attribute) and m.attr in attr_of.values()), "function %s changes a converter registry" % f.name)
+    return out
+
+
 # ------------------------------------------------------------------ runtime tables
 def runtime_tables(tree):
     """name tables of the interpreter (builtins, sqlite3, struct) and of Pyro5.errors in the tree under test.
@@ -624,6 +685,7 @@ def gen_classtag(tree):
     rc = parse_recreate(mod, dtc["tagkey"])
     hooks, ids, specials, extcodes = parse_hooks(mod, dtc["tagkey"])
     tables = runtime_tables(tree)
+    regmode = parse_registries(mod)
     all_srcs = parse_all_exceptions(mod, scope)
     # all_exceptions as the module-level loops build it (later loops override earlier names)
     allexc = {}
@@ -655,6 +717,10 @@ def gen_classtag(tree):
     out += "Definition ser_float_special : list (N * (list N * list N)) := %s.\n" % clist(
         ["(%s, (%s, %s))" % (cN(sid), ctext(t), ctext(k)) for sid, t, k in specials])
     out += "Definition ext_codes : list N := %s.\n" % clist([cN(c) for c in (extcodes or [])])
+    out += "(* converter registries: does register_x / unregister_x change the shared class-level dict in place (true), or rebind the\n"
+    out += "   attribute through cls so that a serializer subclass gets its own shadowing copy (false)? *)\n"
+    out += "Definition reg_d2c_inplace : bool := %s.\n" % cbool(regmode["dict_to_class"])
+    out += "Definition reg_c2d_inplace : bool := %s.\n" % cbool(regmode["class_to_dict"])
     for ns, name in (("Pyro5.errors", "env_errors"), ("builtins", "env_builtins"), ("sqlite3", "env_sqlite3")):
         t = tables[ns]
         out += "Definition %s : list (list N * entry) :=   (* %d names *)\n  [%s].\n" % (
@@ -664,6 +730,6 @@ def gen_classtag(tree):
     out += "Definition gen_env : env := {| e_namespaces := [(%s, env_errors); (%s, env_builtins); (%s, env_sqlite3)]; e_all := env_all_exceptions |}.\n" % (
         ctext("Pyro5.errors"), ctext("builtins"), ctext("sqlite3"))
     info = {"pre": dtc["pre"], "chain": dtc["chain"], "hooks": [(s, p, m) for s, p, m in hooks], "ids": ids, "specials": specials,
-            "ext_codes": extcodes, "all_exceptions": sorted(allexc), "errors": {k: v[0] for k, v in tables["Pyro5.errors"].items()},
+            "ext_codes": extcodes, "reg_inplace": regmode, "all_exceptions": sorted(allexc), "errors": {k: v[0] for k, v in tables["Pyro5.errors"].items()},
             "sha": {"dict_to_class": dtc["sha"], "make_exception": mk["sha"], "recreate_classes": rc["sha"]}}
     return out, info
